@@ -15,13 +15,15 @@ fn mv_str(m: &MMove) -> String {
 fn wellformed_sweep(ctx: &mut Ctx) {
     let mut n = 0u64;
     let mut accepted = 0u64;
+    let light = ctx.light();
     for from in 0..64u8 {
         if !ctx.mine(from as u64) {
             continue;
         }
         for k in MKind::ALL {
             for m in std::iter::once(EMPTY).chain(MEN.iter().copied()) {
-                for to in 0..64u8 {
+                // under Miri a strided sample of the destinations
+                for to in (0..64u8).filter(|t| !light || (t + from) % 8 == 0) {
                     n += 1;
                     let want = well_formed(k, m, from, to);
                     let case = format!("tuple:{:?}:{}:{}{}", k, m as char, sq_name(from), sq_name(to));
@@ -98,7 +100,7 @@ fn wellformed_sweep(ctx: &mut Ctx) {
     ctx.eval(n);
     ctx.feature_n("wellformed_tuples_checked", n);
     ctx.feature_n("wellformed_tuples_accepted", accepted);
-    if ctx.shard == 0 {
+    if ctx.shard == 0 && !light {
         ctx.exhaustive_parts.push("Move::new / is_well_formed on all 10 kinds x 13 cells x 64 x 64 tuples (split over shards by source square)".into());
     }
 }
